@@ -6,12 +6,24 @@ import Sqfs.Spec.FsTree
 
   run <sorted 0|1> <d.uid> <d.gid> <d.mtime> <d.mode> <nsteps> step*
       step   = A <path> <mode> <uid> <gid> <mtime> <rdev> <extra>                 (`fstree_add_generic` from a pack-file line)
+             | L <path> <mode> <uid> <gid> <mtime> <rdev> <extra>                 (the same with SQFS_DIR_ENTRY_FLAG_HARD_LINK;
+                                                                                   extra = link target)
              | G <target path> <flags> <defUid> <defGid> <defMode> <defMtime> <filePrefix> <pattern> <rootDev> forest
                                                                                   (`glob_files` / `--pack-dir`)
       forest = <n> node*        node = <name> <mode> <uid> <gid> <mtime> <dev> <ino> <rdev> <target> forest
       extra / filePrefix / pattern = "-" (absent) | "p:<hex>"
     → "ok <dump>" | "err"      (dump format: see harness/h_c11.c)
-  isort <name>*          → the names after `insert_sorted` of each, in the order given
+  direct <full|count> <d.uid> <d.gid> <d.mtime> <d.mode> <n> (A|L step)*
+      → as `run` without glob steps; `count` prints only "ok n=<number of inodes>"   (real: fstree_add_generic called directly)
+  maindefaults <d.uid> <d.gid> <dirscan flags> <force uid> <force gid>
+                         → "<uid> <gid>": the default owner after mkfs.c main() has applied --set-uid and --set-gid
+  isort <name>*          → the names after `insert_sorted` of each, in the order given   (real: fstree_add_generic)
+  readnames <sorted 0|1> <name>*
+                         → the names in the order `read_names` (dir_unix.c) leaves them in `it->names`, i.e. the order
+                           the native iterator serves them (real: sqfs_dir_iterator_create_native under the readdir shim)
+  cmp <a> <b>            → "<sign of compare_names/strcmp(a, b)> <1 iff strcmp(a, b) < 0 as insert_sorted tests it>"
+  sortfiles <nrules> rule* <nfiles> path*     rule = <prio> <flags> <doGlob 0|1> <pathGlob 0|1> <pattern>
+                         → "ok" { " <path>:<flags>" } in the order `fstree_sort_files` leaves `fs->files`
   mon-sorted <name>*     → 1 iff the list is strictly increasing in strcmp order (`Sqfs.FsTree.SortedNames`); monitor op:
                            evaluated by the check on the child lists of the trees the *implementation* built
   lt <a> <b>             → 1 iff strcmp(a, b) < 0 in the model
@@ -79,6 +91,13 @@ partial def parseSteps : Nat → List String → Option (List Step)
     let ex ← optTok extra
     let rest ← parseSteps k more
     some (.add e (match ex with | none => .none | some s => .str s) :: rest)
+  | k + 1, "L" :: path :: mode :: uid :: gid :: mtime :: rdev :: extra :: more => do
+    let p := splitPath (← fromHex path)
+    let e : Ent := { rel := p, path := p, mode := ← nat? mode, uid := ← nat? uid, gid := ← nat? gid,
+                     mtime := ← int? mtime, dev := 0, ino := 0, rdev := ← nat? rdev, mount := false, hard := true }
+    let ex ← optTok extra
+    let rest ← parseSteps k more
+    some (.add e (match ex with | none => .none | some s => .link (splitPath s) none) :: rest)
   | k + 1, "G" :: target :: flags :: du :: dg :: dm :: dt :: fp :: pat :: rootDev :: more => do
     let tp := splitPath (← fromHex target)
     let cfg : Cfg := { flags := ← nat? flags, defUid := ← nat? du, defGid := ← nat? dg, defMode := ← nat? dm,
@@ -92,7 +111,7 @@ partial def parseSteps : Nat → List String → Option (List Step)
 def runSteps (sorted : Bool) (d : Defaults) : List Step → TNode → List Path → Option (TNode × List Path)
   | [], t, l => some (t, l)
   | .add e extra :: rest, t, l =>
-      match addPath d e extra e.path t with
+      match addGeneric d e extra t with
       | none => none
       | some t' => runSteps sorted d rest t' (if e.hard then e.path :: l else l)
   | .glob target cfg rootDev forest :: rest, t, l =>
@@ -144,6 +163,26 @@ def step (line : String) : String :=
           | none => "err"
           | some r => dump r
     | _, _, _, _, _, _ => "bad-op"
+  | "direct" :: what :: du :: dg :: dt :: dm :: n :: rest =>
+    match nat? du, nat? dg, nat? dt, nat? dm, nat? n with
+    | some du, some dg, some dt, some dm, some n =>
+      let d : Defaults := { uid := du, gid := dg, mtime := dt, mode := dm }
+      match parseSteps n rest with
+      | none => "bad-op"
+      | some steps =>
+        match runSteps true d steps (initRoot d) [] with
+        | none => "err"
+        | some (t, links) =>
+          match postProcess t links with
+          | none => "err"
+          | some r => if what = "count" then s!"ok n={r.inodes.length}" else dump r
+    | _, _, _, _, _ => "bad-op"
+  | "maindefaults" :: du :: dg :: fl :: fu :: fg :: [] =>
+    match nat? du, nat? dg, nat? fl, nat? fu, nat? fg with
+    | some du, some dg, some fl, some fu, some fg =>
+      let d := mainDefaults { uid := du, gid := dg, mtime := 0, mode := 0 } fl fu fg
+      s!"{d.uid} {d.gid}"
+    | _, _, _, _, _ => "bad-op"
   | "isort" :: names =>
     match names.mapM fromHex with
     | none => "bad-op"
@@ -151,6 +190,40 @@ def step (line : String) : String :=
       let mk (n : Name) : TNode := .mk n default []
       let l := ns.foldl (fun acc n => insertSorted (mk n) acc) []
       String.intercalate " " (l.map fun t => toHexTok t.name)
+  | "readnames" :: sorted :: names =>
+    match nat? sorted, names.mapM fromHex with
+    | some so, some ns =>
+      let mk (n : Name) : HNode := .mk n default [] []
+      String.intercalate " " ((readNames (so != 0) (ns.map mk)).map fun h => toHexTok h.name)
+    | _, _ => "bad-op"
+  | "cmp" :: a :: b :: [] =>
+    match fromHex a, fromHex b with
+    | some a, some b =>
+      let c := compareNames (.mk a default [] []) (.mk b default [] [])
+      s!"{if c < 0 then "-1" else if c > 0 then "1" else "0"} {if nameLt a b then 1 else 0}"
+    | _, _ => "bad-op"
+  | "sortfiles" :: nr :: rest =>
+    match nat? nr with
+    | none => "bad-op"
+    | some nr =>
+      let rec rules (k : Nat) (toks : List String) (acc : List SortRule) : Option (List SortRule × List String) :=
+        match k, toks with
+        | 0, _ => some (acc.reverse, toks)
+        | k + 1, pr :: fl :: dg :: pg :: pat :: more => do
+          let r : SortRule := { prio := ← int? pr, flags := ← nat? fl, doGlob := (← nat? dg) != 0,
+                                pathGlob := (← nat? pg) != 0, pat := ← fromHex pat }
+          rules k more (r :: acc)
+        | _, _ => none
+      match rules nr rest [] with
+      | some (rs, nf :: paths) =>
+        match nat? nf, paths.mapM fromHex with
+        | some nf, some ps =>
+          if nf != ps.length then "bad-op"
+          else
+            let out := sortFiles globMatch rs (ps.map splitPath)
+            "ok" ++ String.join (out.map fun f => s!" {tokPath f.path}:{f.flags}")
+        | _, _ => "bad-op"
+      | _ => "bad-op"
   | "mon-sorted" :: names =>
     -- monitor: the specification predicate `SortedNames` evaluated on a child list observed in the implementation
     match names.mapM fromHex with
